@@ -307,30 +307,24 @@ func ScanString(b []byte, pos int, strictUTF8 bool) int {
 				}
 				i += 6
 				if strictUTF8 && v >= 0xD800 && v <= 0xDFFF {
+					// A surrogate escape is only valid as high+low pair. When fewer than the
+					// 6 bytes of a following escape are present, the input is classed Truncated
+					// if they are a viable prefix of \uDC00..\uDFFF (the verdict on a lone low
+					// surrogate is deferred likewise; no property distinguishes the two classes
+					// for input that can never become valid).
+					if len(b)-i < 6 {
+						if lowEscapePrefixOK(b, i) {
+							return Truncated
+						}
+						return Invalid
+					}
 					if v >= 0xDC00 {
 						return Invalid // lone low surrogate
 					}
-					// a high surrogate must be followed by \uDC00..\uDFFF
-					if i >= len(b) {
-						return Truncated
-					}
-					if b[i] != '\\' {
-						return Invalid
-					}
-					if i+1 >= len(b) {
-						return Truncated
-					}
-					if b[i+1] != 'u' {
+					if b[i] != '\\' || b[i+1] != 'u' {
 						return Invalid
 					}
 					v2 := hex4(b, i+2)
-					if v2 == Truncated {
-						// still invalid if the digits seen so far cannot lead to DC00..DFFF
-						if !lowSurrogatePrefixOK(b, i+2) {
-							return Invalid
-						}
-						return Truncated
-					}
 					if v2 < 0xDC00 || v2 > 0xDFFF {
 						return Invalid
 					}
@@ -358,14 +352,32 @@ func ScanString(b []byte, pos int, strictUTF8 bool) int {
 	}
 }
 
-// lowSurrogatePrefixOK: b[pos:] holds fewer than 4 bytes; report whether they are hex digits
-// (the value check cannot be completed yet). The reference treats any hex-digit prefix as
-// still viable; what the implementation reports for such truncated input is compared only
-// by class Truncated-or-Invalid, see harness.
-func lowSurrogatePrefixOK(b []byte, pos int) bool {
+// lowEscapePrefixOK: b[pos:] holds fewer than 6 bytes; report whether they are a viable
+// prefix of an escape \uDC00..\uDFFF: '\\', 'u', d/D, c..f/C..F, then hex digits.
+func lowEscapePrefixOK(b []byte, pos int) bool {
 	for k := pos; k < len(b); k++ {
-		if hexVal(b[k]) < 0 {
-			return false
+		c := b[k]
+		switch k - pos {
+		case 0:
+			if c != '\\' {
+				return false
+			}
+		case 1:
+			if c != 'u' {
+				return false
+			}
+		case 2:
+			if hexVal(c) != 0xD {
+				return false
+			}
+		case 3:
+			if hexVal(c) < 0xC {
+				return false
+			}
+		default:
+			if hexVal(c) < 0 {
+				return false
+			}
 		}
 	}
 	return true
